@@ -29,6 +29,7 @@ from ..pyvc.values import Unsupported, Infeasible
 from .ctype import TInt, TPtr, TArray, TRecord, TFunc, TVoid
 from .values import V, zt, vbool, truth, FnPtr, Block, Ptr, UNINIT, State, leaves
 from .interp import Engine, PathCut, _Break, _Continue, _Return
+from .covers import PathCover, add_hints
 
 
 class NS:
@@ -372,6 +373,7 @@ class Contract:
     inline = ()            # callees interpreted from their bodies
     uses = ()              # contracts (classes) of callees
     trusted_init = ()      # globals whose initialiser is taken as content (justified by never_written check)
+    merge_ifs = False      # True: `if` statements with assignment-only branches are merged (ite) instead of forking
     cases = (None,)
     loops = None           # {ordinal: LoopSpec}
 
@@ -581,6 +583,9 @@ def make_engine(tu, contract, registry):
         E.contracts[cc.name] = as_callee(cc, tu)
     E.inline |= set(contract.inline)
     E.trusted_init |= set(contract.trusted_init)
+    if contract.merge_ifs:
+        E.merge_ifs.add(contract.name)
+        E.merge_ifs |= set(contract.inline)
     for k, spec in (contract.loops or {}).items():
         E.loop_specs[(contract.name, k)] = spec
     return E
@@ -683,24 +688,56 @@ def verify(run, prop, tu, contract_cls, case_filter=None, tag_extra=None):
                 t = dict(base_tag)
                 t.update({k: v for k, v in meta.items() if isinstance(v, (str, int))})
                 t["path"] = pid
-                run.add(Obligation(prop, fname, clause, pc, goal, kind=meta["kind"], case=_cs(cs, pid, meta.get("where")),
-                                   where=where, inputs=inputs, tag=t))
+                run.add(mk_obligation(Obligation, prop, fname, clause, pc, goal, kind=meta["kind"], case=_cs(cs, pid, meta.get("where")),
+                                      where=where, inputs=inputs, tag=t))
             if p.cut:
                 total["cut"] += 1
-                run.add(Cover(prop, fname, "path_feasible", p.pc, case=_cs(cs, pid, "cut"), where=where, tag=dict(base_tag)))
+                run.add(mk_obligation(PathCover, prop, fname, "path_feasible", p.pc, case=_cs(cs, pid, "cut"), where=where, tag=dict(base_tag)))
                 continue
             out = p.outcome
             t = dict(base_tag)
             t["path"] = pid
             for label, g in out["posts"]:
-                run.add(Obligation(prop, fname, "post.%s" % label, out["pc"], g, kind="post", case=_cs(cs, pid), where=where,
-                                   inputs=inputs, tag=dict(t, clause=label)))
+                run.add(mk_obligation(Obligation, prop, fname, "post.%s" % label, out["pc"], g, kind="post", case=_cs(cs, pid), where=where,
+                                      inputs=inputs, tag=dict(t, clause=label)))
             for label, g in out["frames"]:
-                run.add(Obligation(prop, fname, "frame.%s" % label, out["pc"], g, kind="frame", case=_cs(cs, pid), where=where,
-                                   inputs=inputs, tag=dict(t, clause=label)))
-            run.add(Cover(prop, fname, "path_feasible", out["pc"], case=_cs(cs, pid), where=where, tag=dict(base_tag)))
+                run.add(mk_obligation(Obligation, prop, fname, "frame.%s" % label, out["pc"], g, kind="frame", case=_cs(cs, pid), where=where,
+                                      inputs=inputs, tag=dict(t, clause=label)))
+            run.add(mk_obligation(PathCover, prop, fname, "path_feasible", out["pc"], case=_cs(cs, pid), where=where, tag=dict(base_tag)))
         note_engine(run, E, tu)
     return total
+
+
+def _table_axioms(terms):
+    """ground axioms of the uf_table symbols occurring in terms (what core.range_instances would add), computed
+    from the engine's memoised symbol sets instead of a fresh walk over every (large, shared) path condition"""
+    from .interp import symbols_of
+    names = set()
+    for t in terms:
+        names |= symbols_of(t)
+    out = []
+    for nm in sorted(names & set(core.UF_TABLES)):
+        f, vals = core.UF_TABLES[nm]
+        out.extend(f(z3.IntVal(k)) == v for k, v in enumerate(vals))
+    return out
+
+
+def mk_obligation(cls, prop, func, clause, assumptions, goal=None, **kw):
+    """Obligation/Cover whose range facts are computed by _table_axioms (CVC registers no ranged arrays: element ranges
+    are assumed at every access by the memory model)"""
+    if core.RANGED:
+        return cls(prop, func, clause, assumptions, goal, **kw) if goal is not None else cls(prop, func, clause, assumptions, **kw)
+    o = cls(prop, func, clause, [], z3.BoolVal(True), **kw) if goal is not None else cls(prop, func, clause, [], **kw)
+    o.assumptions = list(assumptions)
+    if goal is not None:
+        o.goal = goal
+    o.range_facts = _table_axioms(o.assumptions + [o.goal])
+    return o
+
+
+def finish(run):
+    """call once at the end of a property part's build_c: model hints for the path covers (engine/cvc/covers.py)"""
+    add_hints(run)
 
 
 def _cs(cs, pid, extra=None):
